@@ -141,6 +141,23 @@ class Holder(object):
     value = None
 
 
+def _holder_value():
+    v = Holder.value
+    if v == 'GEN':
+        return (i for i in range(3))
+    return v
+
+
+class SharedObj(object):
+    """Class docstring of a callable object."""
+    def method(self):
+        """Bound method, one line."""
+        return _holder_value()
+
+    def __call__(self):
+        return _holder_value()
+
+
 def build():
     from clastic import Application, render_basic
     from clastic.render import render_json, render_json_dev, JSONRender, JSONPRender
@@ -162,14 +179,7 @@ def build():
         """
         return ep()
 
-    class Obj(object):
-        """Class docstring of a callable object."""
-        def method(self):
-            """Bound method, one line."""
-            return ep()
-
-        def __call__(self):
-            return ep()
+    Obj = SharedObj       # a module-level class: the second application binds methods of the SAME class again
     return Application([('/basic', ep, render_basic), ('/basic1', ep1, render_basic), ('/basic2', ep2, render_basic),
                         ('/basic3', Obj().method, render_basic), ('/basic4', Obj(), render_basic),
                         ('/strict', ep, render_json), ('/dev', ep, render_json_dev),
